@@ -85,6 +85,63 @@ Theorem C28_wildcard_case : forall name name' mask mask',
 Proof. exact name_matches_case. Qed.
 Print Assumptions C28_wildcard_case.
 
+(* the regular expression the code builds from the mask (\A, `.` for ?, `.*` for *, re.escape(c) otherwise, \Z;
+   abstract syntax regex_of_mask, pattern text mask_pattern - the text is compared with what the code passes to
+   re.compile by the correspondence) denotes, under the standard semantics of regular expressions, exactly the
+   language of the ?/* matcher: for ALL masks and names *)
+Theorem C28_regex_equiv : forall name mask,
+  rmatch (regex_of_mask mask) (upper name) <-> dos_name_matches name mask = true.
+Proof. exact regex_matches. Qed.
+Print Assumptions C28_regex_equiv.
+
+(* found again, program files: LOAD / SAVE / RUN / CHAIN / MERGE / BLOAD / BSAVE resolve with the default
+   extension BAS.  r is the name given to SAVE, r' the name given later, equal up to letter case; what has to
+   be a legal DOS name is the name with the extension applied (PROG -> PROG.BAS; PROG. and prog.bas stay) *)
+Theorem C28_found_again_bas : forall (h h' : host) p l r r' c,
+  seqb r (lstrip r) = true -> upper r' = upper r ->
+  defext_name r s_BAS <> [] -> is_special (defext_name r s_BAS) = false ->
+  dos_is_legal_name (defext_name r s_BAS) = true -> dos_is_legal_name (defext_name r' s_BAS) = true ->
+  snd (get_native_name h p r s_BAS false true) = Ok c -> h_isfile h (pjoin p c) = false ->
+  h_listdir h p = Ok l -> (forall x, h_isfile h (pjoin p x) = true -> In x l) ->
+  (forall x, h_isfile h' (pjoin p x) = h_isfile h (pjoin p x) || seqb x c) ->
+  snd (get_native_name h' p r' s_BAS false false) = Ok c.
+Proof. exact found_again_bas. Qed.
+Print Assumptions C28_found_again_bas.
+
+(* FILES, no uniqueness assumption: a legal entry always opens a file of the directory that is listed under
+   that very entry.  Hence the only way the entry of f can open something other than f is a COLLISION: another
+   file g <> f with display_name g = display_name f (names differing only in letter case) *)
+Theorem C28_files_entry_opens_some : forall (h : host) p l f,
+  h_listdir h p = Ok l -> In f l -> h_isfile h (pjoin p f) = true ->
+  f <> [] -> is_special f = false -> is_ascii f = true -> dos_is_legal_name f = true ->
+  exists g, snd (get_native_name h p (display_name f) [] false false) = Ok g /\
+            h_isfile h (pjoin p g) = true /\ display_name g = display_name f.
+Proof. exact files_entry_opens_some. Qed.
+Print Assumptions C28_files_entry_opens_some.
+
+(* the entry is a legal DOS name exactly when the host name is one; overlong parts of other names carry the
+   mark +.  (Not every non-legal name is overlong: "A,B" or a short non-ASCII name is listed without +.)
+   cp_clean excludes the two code points of the default code page whose image is an allowable character
+   although they are not ASCII: U+1FEF -> ` and U+212A KELVIN SIGN -> K; for those the equivalence fails
+   (C28_kelvin_entry): such a file is listed under a legal entry that does not open it *)
+Theorem C28_entry_legal_iff : forall f, cp_clean f ->
+  (dos_is_legal_name (display_name f) = true <-> (is_ascii f = true /\ dos_is_legal_name f = true)).
+Proof. exact entry_legal_iff. Qed.
+Print Assumptions C28_entry_legal_iff.
+
+Theorem C28_cp_clean_default : forall f, ~ In 8175 f -> ~ In 8490 f -> cp_clean f.
+Proof. exact cp_clean_default. Qed.
+Print Assumptions C28_cp_clean_default.
+
+Theorem C28_overlong_marked : forall f, is_ascii f && dos_is_legal_name f = false ->
+  (8 < length (fst (dos_splitext (to_cp f))) \/ 3 < length (snd (dos_splitext (to_cp f))))%nat ->
+  In 43 (display_name f).
+Proof. exact overlong_marked. Qed.
+Print Assumptions C28_overlong_marked.
+
+Example C28_kelvin_entry : display_name [8490] = [75] /\ dos_is_legal_name [75] = true /\ is_ascii [8490] = false.
+Proof. exact kelvin_entry. Qed.
+
 (* FILES: an entry that is a legal DOS name opens the file it stands for - when no other file of the
    directory is listed under the same entry (two host files differing only in case share one entry) *)
 Theorem C28_files_lists_openable : forall (h : host) p l f,
